@@ -64,7 +64,8 @@ PROPS = {
     "C04": {"lean": CTLMOD, "prefixes": ["c04_", "c18_consistent", "ctl_reachable_inv"],
             "runs": [ctl("reads", 480, 30, 9000, 40, 13)], "modelled": CTL},
     "C05": {"lean": CTLMOD, "prefixes": ["c05_", "c02_failed_detached", "c18_removed_silent", "ctl_reachable_inv"],
-            "runs": [ctl("faults", 640, 30, 12000, 40, 14)], "modelled": CTL + [
+            "runs": [ctl("faults", 640, 30, 12000, 40, 14), rep("rebuild", 160, 30, 3000, 40, 48)], "modelled": CTL + [
+                "integration: in the replicadiff rebuild profile one of three real RW replicas is killed (REST endpoint 503, data connections cut) behind the real remote backend / RPC client / monitoring; the write that follows must be acknowledged, the dead replica must leave the controller's list, and the survivors' images stay equal (requests killq, cmp)",
                 "partial: that the detector fires (ping ticker, RPC deadline, TCP close) is runtime behaviour; the model takes 'the monitor fires' / 'the call returns an error' as events"]},
     "C08": {"lean": ["JivaVerif.Properties.C08", "JivaVerif.Properties.C12"], "prefixes": ["c08_", "c12_reopen", "recovers_untouched", "encode_effect"],
             "runs": [{"engine": "crashdiff", "profile": "all", "salt": 41, "workers": 16, "split": False,
